@@ -2,7 +2,7 @@
 from __future__ import annotations
 import json, random
 from ..common import Result, Violation, run_driver, canon_hash
-from .. import aghist
+from .. import aghist, genexec
 from ..aghist import Gen, Impl, canon_obs, canon_out, consistent, mirror, rejected_clean
 
 ASSUMPTIONS = [
@@ -44,7 +44,7 @@ def oracle_c09(im, ops, i, st, steps):
     return st.get('_probs', [])
 
 def run_histories(pid, seed, tier, lean, weights, oracle_step, nontrivial, quick_n, thorough_n,
-                  length=(6, 30), with_assets=True, extra_cases=()):
+                  length=(6, 30), with_assets=True, extra_cases=(), gen_every=1):
     rnd = random.Random(seed)
     res = Result()
     n = quick_n if tier == 'quick' else thorough_n
@@ -53,13 +53,20 @@ def run_histories(pid, seed, tier, lean, weights, oracle_step, nontrivial, quick
         g = Gen(random.Random(rnd.getrandbits(48)), weights, nmax=rnd.choice([4, 6, 10]), with_assets=with_assets)
         L = rnd.randint(*length) if k % 10 else rnd.randint(60, 150)
         hists.append(g.gen(L))
-    model = None
+    model = gen = None
     if lean['build_ok']:
-        model = run_driver([{'op': 'ag_hist', 'case': i, 'ops': h} for i, h in enumerate(hists)])
+        # third column: the same histories executed with the GENERATED code (Py/Gen/*.lean, Py/GenAgSerial/*.lean)
+        model, gen = genexec.run_both([{'op': 'ag_hist', 'case': i, 'ops': h} for i, h in enumerate(hists)], 'gen_ag_hist', every=gen_every)
     for hi, ops in enumerate(hists):
         res.evaluations += 1
         im = Impl()
         mo_steps = None
+        go_steps, gbad = None, None
+        if gen is not None and gen[hi] is not None:
+            if 'error' in gen[hi]:
+                res.violations.append(genexec.driver_error(pid, gen[hi]['error'], {'ops': ops}))
+            else:
+                go_steps = gen[hi]['model']
         if model is not None:
             if 'error' in model[hi]:
                 res.violations.append(Violation(what=f'driver rejected a history: {model[hi]["error"]}',
@@ -94,6 +101,16 @@ def run_histories(pid, seed, tier, lean, weights, oracle_step, nontrivial, quick
                     bad = ('diverge', i, {'impl': a, 'model': b}); continue
                 if [st['out'], st['obs']] != [mo['out'], mo['obs']]:
                     res.drift += 1
+                if go_steps is not None and gbad is None:
+                    go = go_steps[i]
+                    res.bump('generated_code_steps_compared')
+                    if not genexec.ag_step_same(op, st, a, go, canon_obs, canon_out):
+                        gbad = (i, {'impl': [st['err'], st['out'], st['obs'], st['other']],
+                                    'generated': [go['err'], go['out'], go['obs'], go['other']], 'hand_model': b})
+        if gbad is not None and not (bad and bad[0] == 'oracle'):
+            gi, ginfo = gbad
+            res.violations.append(genexec.divergence(pid, ops[gi]['k'], f'after step {gi} ({ops[gi]["k"]}) of a history',
+                                                     {'ops': ops[:gi + 1], **ginfo}))
         if nontrivial(kinds, ops):
             res.nontrivial.add(canon_hash(ops))
         if bad:
@@ -216,6 +233,9 @@ def generated_case(rnd):
 
 def run(seed, tier, lean) -> Result:
     res = _run(seed, tier, lean)
+    if lean['build_ok']:
+        # outside the invariants (removed handles, one-sided edges, repeated removals): implementation vs GENERATED code only
+        genexec.run_wild('C09', seed, 150 if tier == 'quick' else 900, res)
     r = random.Random(seed ^ 0xC09)
     for _ in range(150 if tier == 'quick' else 900):
         cs = r.getrandbits(48)
